@@ -8,7 +8,7 @@ use crate::core::{search, Ctx, Search};
 use crate::rt::Disc;
 
 /// site groups: multi-RP (reference store) and single-RP (shipped stores)
-const MULTI: [&[usize]; 4] = [&[0, 2, 3, 1], &[5, 7, 2, 8], &[4, 6, 0, 3], &[9, 10, 4, 1]];
+const MULTI: [&[usize]; 4] = [&[0, 2, 3, 1], &[5, 7, 2, 8], &[4, 6, 0, 3, 12], &[9, 10, 4, 1, 11]];
 const SINGLE: [&[usize]; 4] = [&[0, 1, 8], &[2], &[5], &[9]];
 
 fn ops(sites: Vec<usize>, max: usize) -> impl Strategy<Value = Vec<Op>> {
